@@ -104,6 +104,7 @@ class Case final : public sim::CaseBase {
     for (int i = 0; i < prod_delay; ++i) {
       sim::Yield();
     }
+    sim::RaceWrite(&payload_cell, sizeof payload_cell);
     payload_cell = id;  // plain write that must be visible to whoever observes completion (C04 race build)
     set_invoke = sim::Seq();
     switch (producer) {
@@ -137,6 +138,7 @@ class Case final : public sim::CaseBase {
       seen.exec = sim::CurrentExec();
       seen.functor_alive_at_call = cap.Read(who) == 7777 ? 1 : 0;
       seen.got = sim::Observe(r, who);
+      sim::RaceRead(&payload_cell, sizeof payload_cell);
       seen_cell = payload_cell;
     };
   }
@@ -164,6 +166,7 @@ class Case final : public sim::CaseBase {
         if (set_invoke == 0) {
           sim::Fail("EARLY", "Ready()==true before the producer began to fulfil");
         }
+        sim::RaceRead(&payload_cell, sizeof payload_cell);
         ready_cell_ok = payload_cell == id;
       }
       sim::Yield();
@@ -175,6 +178,7 @@ class Case final : public sim::CaseBase {
         direct.calls = 1;
         direct.at = sim::Seq();
         direct.got = sim::Observe(r, "Get&&");
+        sim::RaceRead(&payload_cell, sizeof payload_cell);
         seen_cell = payload_cell;
       } break;
       case kThenInline: {
@@ -202,6 +206,7 @@ class Case final : public sim::CaseBase {
         direct.calls = 1;
         direct.at = sim::Seq();
         direct.got = sim::Observe(*r, "Get const&");
+        sim::RaceRead(&payload_cell, sizeof payload_cell);
         seen_cell = payload_cell;
         const Res* again = std::as_const(f).Get();
         if (again != r) {
@@ -213,6 +218,7 @@ class Case final : public sim::CaseBase {
         if (!f.Ready()) {
           sim::Fail("WAIT_NOT_READY", "Wait returned but Ready() is false");
         }
+        sim::RaceRead(&payload_cell, sizeof payload_cell);
         seen_cell = payload_cell;
         const Outcome a = sim::Observe(std::as_const(f).Touch(), "Touch const& after Wait");
         Res r = std::move(f).Touch();
@@ -230,6 +236,7 @@ class Case final : public sim::CaseBase {
         direct.calls = 1;
         direct.at = sim::Seq();
         direct.got = sim::Observe(r, "Get of the connected contract");
+        sim::RaceRead(&payload_cell, sizeof payload_cell);
         seen_cell = payload_cell;
       } break;
       default: {
